@@ -59,6 +59,15 @@ fn main() {
             }
         }
     }
+    if args[0] == "--cell" {
+        if let Ok(g) = std::env::var("MWMC_WORKER_MEM_GIB") {
+            if let Ok(g) = g.parse::<u64>() {
+                cap_memory(g);
+            }
+        }
+        println!("{}", props::c19::run_cell(args.get(1).map(|s| s.as_str()).unwrap_or("")));
+        std::process::exit(0);
+    }
     if args[0] == "--bench" {
         let text = args.get(1).cloned().unwrap_or_default();
         let n: u32 = args.get(2).and_then(|s| s.parse().ok()).unwrap_or(10000);
@@ -119,6 +128,7 @@ fn main() {
         "C16" => props::c16::run(&mk("C16")),
         "C17" => props::c17::run(&mk("C17")),
         "C18" => props::c18::run(&mk("C18")),
+        "C19" => props::c19::run(&mk("C19")),
         "C20" => props::c20::run(&mk("C20")),
         _ => {
             eprintln!("unknown property {}", prop);
